@@ -20,9 +20,10 @@ stopped and came back serves every acknowledged write again":
 The correspondence engine `clusterdiff` drives the REAL controller with replica stand-ins that keep
 exactly this persisted state and compares every step with this model (`drv cluster`).
 
-Atomicity assumed (named in DESIGN.md): attaching a WO replica and persisting `rebuilding = true`
-is one step.  The promotion is two steps (`promote`: the controller makes the replica RW;
-`rbdone`: the replica clears its flag), as in `sync.Task.reloadAndVerify`.
+The addition and the promotion are two steps each, as in `sync.Task.AddReplica` / `reloadAndVerify`:
+`add` (the controller attaches the replica WO) then `setrb` (the replica marks itself as rebuilding);
+`promote` (the controller makes the replica RW) then `rbdone` (the replica clears its flag).  A stop
+can fall between them.
 -/
 namespace Jiva
 namespace Cluster
@@ -124,10 +125,18 @@ def stepWrite (s : Sys) (fails applied : List Nat) : Sys × Out :=
   let ok := Ctl.majorityOk nM nF && decide (s'.rwCount > 0)
   ({ s' with acked := if ok then s.acked ++ [s.next] else s.acked }, if ok then .ok else .failed)
 
-/-- `AddReplica`: a WO replica is attached and marks itself as rebuilding -/
+/-- `AddReplica` on the controller's side (`sync.Task.AddReplica` → `CreateReplica`): a WO replica is
+    attached.  Its directory is what it was; the writes it receives while WO are not counted and are
+    not part of `log` (they matter only through the rebuild that follows). -/
 def stepAdd (s : Sys) (i : Nat) : Sys × Out :=
   if !s.up ∨ i ≥ s.n ∨ (s.node i).att ≠ .none ∨ s.hasWO ∨ s.memberCount ≥ s.rf ∨ s.rwCount = 0 then (s, .refused) else
-  (s.setNode i { s.node i with att := .wo, rebuilding := true, log := [] }, .ok)
+  (s.setNode i { s.node i with att := .wo }, .ok)
+
+/-- the attached WO replica marks itself as rebuilding (`SetRebuilding(true)`, the next step of
+    `sync.Task.AddReplica`) and the transfer starts to overwrite what it held -/
+def stepSetRb (s : Sys) (i : Nat) : Sys × Out :=
+  if !s.up ∨ i ≥ s.n ∨ (s.node i).att ≠ .wo then (s, .refused) else
+  (s.setNode i { s.node i with rebuilding := true, log := [] }, .ok)
 
 /-- `VerifyRebuildReplica` after the sync: the rebuilt replica holds what its source holds (C07),
     takes its counter (C10) and becomes RW -/
@@ -155,6 +164,7 @@ inductive Op where
   | reg (i e : Nat)
   | write (fails applied : List Nat)
   | add (i : Nat)
+  | setrb (i : Nat)
   | promote (i src : Nat)
   | rbdone (i : Nat)
   | remove (i : Nat)
@@ -165,6 +175,7 @@ def Sys.step (s : Sys) : Op → Sys × Out
   | .reg i e => s.stepReg i e
   | .write f a => s.stepWrite f a
   | .add i => s.stepAdd i
+  | .setrb i => s.stepSetRb i
   | .promote i src => s.stepPromote i src
   | .rbdone i => s.stepRbDone i
   | .remove i => s.stepRemove i
